@@ -220,6 +220,18 @@ PROPS = {
         text="Concurrency errors in package-level state (character tables, language maps, escapers, regexps) would show either as a race report or as a result differing from the sequential one; absence of races is not established.",
         note="Trusted: the Go race detector, the canonical dumper.",
         design="5/C20"),
+    "C07": P(
+        "TestC07", "exploration",
+        "case = (source format in {srt,ssa,ass,stl,ttml,vtt,ts}, source document rendered from the C01-C06 models with portable text and start <= end, random-case extensions, optional second document for merge, operation sequence of length 0..4 over {sync d, fragment f, unfragment, merge, optimize, order, linear correction (last)}, destination format in {srt,ssa,ass,stl,ttml,vtt}, entry point). "
+        "Library: Open -> operations in memory -> Write -> Open, compared with the source-as-read run through the composed executable specifications of the operations and truncated to the destination resolution (ms / cs / frame at the destination rate plus programme start): same count, order, boundaries (1 unit of tolerance only after a linear correction) and text with white space removed. CLI: the same single step (convert or one sub-command) must produce byte-identical files (STL date bytes masked); chains of 2..4 sub-commands through intermediate files are compared step by step with the library doing the same. All 42 pairs are also run deterministically (matrix); unsupported extensions must give ErrInvalidExtension from Open and Write and a non-zero CLI exit; an empty result must give ErrNoSubtitlesToWrite. "
+        "Non-trivial = source and destination formats differ or >=1 operation; distinct = hash of the case.",
+        ["the readers are vouched for by C01-C06: the expectation starts from the source as read",
+         "cases whose text is not representable in the destination (predicate per destination: no '-->' / block keywords for SRT/WebVTT, no braces / \\N for SSA, Latin repertoire without '$' and <= 112 bytes for STL, XML-legal characters) or whose times become negative are outside the precondition: skipped and counted",
+         "known finding: text written to STL under a teletext display standard (the default without STL metadata) is lost: for that class only the text comparison is skipped, count / order / boundaries are still checked"],
+        shards=(4, 16), cli=True, technique="end-to-end differential and model-based property testing: composed executable specifications on the source-as-read vs. the destination re-read; CLI binary vs. library byte for byte (subprocess)",
+        text="Conversion is checked against the composition of the operation specifications already used by C09-C15, over all 42 format pairs and generated operation sequences, through both entry points.",
+        note="Trusted: the readers (C01-C06), the specifications, the representability predicates.",
+        design="5/C07", exhaustive_note=True),
 }
 
 # Properties deliberately not claimed (reason each); anything else missing from PROPS is work in progress.
